@@ -1,13 +1,19 @@
 #!/bin/bash
-# Build the framework from files on disk only (offline): all Coq theories, translator, harness binaries (warms the Go build cache).
-set -e
+# Build the framework from files on disk only (offline): translators (regenerate coq/Gen from /repo), all Coq
+# theories (full .vo build), harness binaries (warms the Go build cache). Each check rebuilds what it needs anyway.
 cd "$(dirname "$0")"
 export GOFLAGS=-mod=mod GOPROXY=off GOSUMDB=off GOTOOLCHAIN=local
-./coq/build.sh
-cp /repo/go.sum harness/go.sum
-if [ -d translator ]; then (cd translator && go build -o bin/translator . ) ; fi
+mkdir -p translator/bin coq/Gen work replays evidence
+for d in translator/*/; do
+  n=$(basename "$d"); [ "$n" = bin ] && continue
+  [ -f "$d/main.go" ] || continue
+  (cd "$d" && go build -o ../bin/$n . && ../bin/$n -repo "${VERIF_REPO:-/repo}" -out ../../coq/Gen) || echo "warning: translator $n failed in setup"
+done
+./coq/build.sh -k || echo "warning: some Coq files did not build in setup (each check rebuilds its own targets and reports)"
+cp "${VERIF_REPO:-/repo}/go.sum" harness/go.sum
 for d in harness/cmd/*/; do
   n=$(basename "$d")
   (cd harness && go build -tags verif -o bin/$n ./cmd/$n) || echo "warning: harness $n did not build in setup (the check itself rebuilds it)"
 done
 echo setup done
+exit 0
